@@ -81,6 +81,13 @@ CHECKS = {
             "nested removable elements, unbalanced end tags and CDATA; hidden tokens must never appear, visible tokens before/after must all survive. Constructs whose inside/outside is debatable are kept out of the judged set.",
             "The MSG path is exercised through the HTML-to-text helper directly (no synthetic .msg container).",
             "DESIGN.md §8 C17"),
+    "C18": ("fault_enumeration",
+            "simulated Graph service behind request_func with close/read counters; reference walk + independent filter implementation; complete enumeration of (request index x fault kind) per listing run, each followed by a healthy retry",
+            "Random document libraries (trees, paging, names needing quoting, missing fields, named drives, folder filters, timestamps at the filter bounds) are listed through the real client against a simulated Graph "
+            "service; results are compared as multisets with an independent reference walk; then for every request position of the fault-free sequence and every fault kind (HTTP 4xx/5xx, URLError, truncated/non-JSON, "
+            "non-2xx without exception, wrong top-level type, non-UTF-8, OSError, read failure) the exception family, status/url, close() of every opened response and the completeness of a retry are judged.",
+            "Positions x kinds are enumerated completely per library (large libraries fault-free only); the simulator implements only the endpoints the client calls.",
+            "DESIGN.md §8 C18"),
     "C20": ("exploration",
             "icontract post-conditions on the real AES mode functions vs an independent FIPS-197 reference; finite tables enumerated",
             "Every call of the real aes_ecb/cbc_encrypt/decrypt (direct, through pypdf's patched bindings and CryptAES) is compared by a "
